@@ -386,6 +386,16 @@ def emit_fn(data, it, ckey, C, tlog, anchors_used, canary=False):
             r = cands[k - 1]
             ed.insert(r["start"], "{ " + text, order=0)
             ed.insert(r["end"], " }", order=-1)
+        elif parts[0] == "before_return" and parts[1] == "*":
+            # EVERY `return` of the function (a hint that is valid at each of them: robust against returns being added, removed or
+            # reordered by a restructuring of the control flow)
+            if not f["returns"]:
+                raise Undecided("lost anchor: %s has no `return` any more" % it["path"])
+            for r in f["returns"]:
+                if r.get("in_closure"):
+                    continue
+                ed.insert(r["start"], "{ " + text, order=0)
+                ed.insert(r["end"], " }", order=-1)
         elif parts[0] == "before_return":
             k = int(parts[1])
             rets = {r["ord"]: r for r in f["returns"]}
